@@ -7,6 +7,10 @@
 
 #include "Basic/AException.hpp"
 #include "Neigh/ANeigh.hpp"
+#include "Basic/CSVformat.hpp"
+#include "Core/CSV.hpp"
+#include "Enum/ELoadBy.hpp"
+#include "OutputFormat/AOF.hpp"
 
 #include <fstream>
 #include <sstream>
@@ -64,7 +68,9 @@ struct FaultyReader : std::streambuf
   FaultyReader(const std::string& data, size_t chunkSize, long badAtByte) : d(data), chunk(chunkSize ? chunkSize : 1), badAt(badAtByte), buf(chunk) {}
   int_type underflow() override
   {
-    if (badAt >= 0 && (long)pos >= badAt) throw std::ios_base::failure("simulated EIO"); // istream turns this into badbit
+    // a failing read(2) under a filebuf surfaces as end of file (filebuf::underflow returns eof, it does not throw):
+    // the simulated EIO therefore ends the stream at that byte, after a short read
+    if (badAt >= 0 && (long)pos >= badAt) { if (++eofCalls > 10000) { const char* m = "X budget-steps\n"; if (g_storeEventFd >= 0) (void)!write(g_storeEventFd, m, strlen(m)); _exit(80); } return traits_type::eof(); }
     if (pos >= d.size())
     {
       if (++eofCalls > 10000)
@@ -78,7 +84,7 @@ struct FaultyReader : std::streambuf
     }
     size_t n = std::min(chunk, d.size() - pos);
     if (badAt >= 0 && (long)(pos + n) > badAt) n = (size_t)(badAt - (long)pos);
-    if (n == 0) throw std::ios_base::failure("simulated EIO");
+    if (n == 0) return traits_type::eof();
     memcpy(buf.data(), d.data() + pos, n);
     pos += n;
     setg(buf.data(), buf.data(), buf.data() + n);
@@ -125,6 +131,9 @@ std::vector<std::pair<size_t, size_t>> lines(const std::string& s)
 }
 std::string replacementToken(long r, const std::string& body, const std::vector<Token>& toks)
 {
+  // format-aware tokens: role names with odd ranks, keywords of the formats
+  static const char* domain[] = {"code2", "sel2", "w2", "x2000000000", "facies1", "z0", "z-1", "f99", "NA", "1,2", "0x10", "+", "1e", ".", "-", "@", "!", "999999999999", "1.5", "2"};
+  if (r % 3 == 2) return domain[(r / 3) % 20];
   switch (r % 11)
   {
     case 0: return "-1";
@@ -411,12 +420,9 @@ void judgeSurvivor(const ClassAdapter& ad, LoadOutcome& lo, Ctx& c, const std::s
     }
     Desc d2;
     ad.describe(b.get(), d2);
+    // equality of the re-saved survivor with itself is the round-trip property (C08): here it is a reach probe only
     std::string df = descDiff(d1, d2, 1e-14);
-    if (!df.empty())
-    {
-      c.violation(P + "survivor-roundtrip-differs|" + ad.name + "|" + keyStem(firstWord(df)), detailCtx + " :: " + df);
-      return;
-    }
+    if (!df.empty()) c.count("probe.survivor-roundtrip-differs(C08-matter)");
     c.count("probe.survivor-usable-and-savable");
   }
   catch (const std::exception& e)
@@ -428,6 +434,81 @@ void judgeSurvivor(const ClassAdapter& ad, LoadOutcome& lo, Ctx& c, const std::s
     c.violation(P + "unusable-object|" + ad.name + "|unknown", detailCtx);
   }
   (void)dmgName;
+}
+
+// ---------------------------------------------------------------- exchange formats (path API only)
+// CSV and grid exchange files are written by the library's own writers into the scratch directory, read back as
+// bytes (the simulated disk content), damaged, materialised again and offered to the library's readers.
+struct Fmt
+{
+  std::string name;    // fmt.CSV, fmt.Zycor, fmt.IfpEn, fmt.Bmp
+  std::string judgeAs; // class adapter used to judge what the reader returns
+};
+const std::vector<Fmt>& formats()
+{
+  static std::vector<Fmt> F = {{"fmt.CSV", "Db"}, {"fmt.Zycor", "DbGrid"}, {"fmt.IfpEn", "DbGrid"}, {"fmt.Bmp", "DbGrid"}};
+  return F;
+}
+const Fmt* findFmt(const std::string& n)
+{
+  for (auto& f : formats()) if (f.name == n) return &f;
+  return nullptr;
+}
+std::string readFileRaw(const std::string& p)
+{
+  std::ifstream f(p, std::ios::binary);
+  std::stringstream ss;
+  ss << f.rdbuf();
+  return ss.str();
+}
+CSVformat csvFormatOf(long code)
+{
+  bool header = (code % 2) == 0;
+  char sep = ((code / 2) % 3 == 0) ? ',' : ((code / 2) % 3 == 1 ? ';' : ' ');
+  return CSVformat(header, 0, sep, '.', (code / 6) % 2 ? "NA" : "MISS");
+}
+// build an object and write it with the library writer; returns the file bytes
+bool fmtMake(const Fmt& f, const Op& op, std::unique_ptr<Db>& orig, std::string& bytes)
+{
+  Rng r((uint64_t)op.I(0) * 0x9E3779B97F4A7C15ULL + hstr(f.name));
+  std::string p = scratchDir() + "/fmtsrc.dat";
+  unlink(p.c_str());
+  if (f.name == "fmt.CSV")
+  {
+    int n = 1 + (int)r.below(12), nv = 1 + (int)r.below(4);
+    VectorDouble tab;
+    VectorString names;
+    static const char* nm[] = {"alpha", "beta", "gam", "del"};
+    for (int v = 0; v < nv; v++) names.push_back(nm[v]);
+    for (int i = 0; i < n; i++) for (int v = 0; v < nv; v++) tab.push_back(r.chance(0.1) ? TEST : (r.chance(0.3) ? (double)r.range(-5, 5) : r.gauss() * 10));
+    orig.reset(Db::createFromSamples(n, ELoadBy::SAMPLE, tab, names, VectorString(), false));
+    CSVformat fmt = csvFormatOf(op.I(0));
+    if (db_write_csv(orig.get(), p.c_str(), fmt, 1, 1, false) != 0) return false;
+  }
+  else
+  {
+    int nx = 2 + (int)r.below(5), ny = 2 + (int)r.below(4);
+    DbGrid* g = DbGrid::create({nx, ny}, {0.5 + r.below(4), 1. + r.below(3)}, {(double)r.range(-5, 5), (double)r.range(0, 9)});
+    VectorDouble v(g->getSampleNumber());
+    for (auto& x : v) x = r.chance(0.1) ? TEST : (f.name == "fmt.Bmp" ? (double)r.range(0, 200) : r.gauss() * 5);
+    g->addColumns(v, "var", ELoc::Z, 0);
+    orig.reset(g);
+    int icol = g->getColumnNumber() - 1;
+    int err = 1;
+    if (f.name == "fmt.Zycor") err = db_grid_write_zycor(p.c_str(), g, icol);
+    else if (f.name == "fmt.IfpEn") { int ic[1] = {icol}; err = db_grid_write_ifpen(p.c_str(), g, 1, ic); }
+    else err = db_grid_write_bmp(p.c_str(), g, icol);
+    if (err) return false;
+  }
+  bytes = readFileRaw(p);
+  return !bytes.empty();
+}
+Db* fmtLoad(const Fmt& f, const Op& op, const std::string& path)
+{
+  if (f.name == "fmt.CSV") return Db::createFromCSV(path, csvFormatOf(op.I(0)), false);
+  if (f.name == "fmt.Zycor") return db_grid_read_zycor(path.c_str(), 0);
+  if (f.name == "fmt.IfpEn") return db_grid_read_ifpen(path.c_str(), 0);
+  return db_grid_read_bmp(path.c_str(), 0);
 }
 
 const ClassAdapter& adapterFor(const Op& op)
@@ -533,6 +614,59 @@ void execSweep(const Plan& p, Ctx& c, long startIndex)
   }
   if (!oop) { c.line("Z no-obj"); return; }
   size_t bufsz = (size_t)p.knob("bufsz", 64);
+  if (const Fmt* fm = findFmt(oop->S(0)))
+  {
+    // exchange format: path API only
+    c.begin(0, "obj");
+    std::unique_ptr<Db> orig;
+    std::string image;
+    if (!fmtMake(*fm, *oop, orig, image)) { c.line("Z cannot-write-format " + fm->name); return; }
+    c.end(0, Digest().hex());
+    c.fp(fm->name);
+    const ClassAdapter* judge = findAdapter(fm->judgeAs);
+    std::vector<Damage> L;
+    if (dop) { Damage d; d.kind = (int)dop->I(0); d.a = dop->I(1); d.b = dop->I(2); L.push_back(d); }
+    else if (sop)
+    {
+      std::vector<std::pair<size_t, size_t>> ev;
+      for (size_t k = 0; k < image.size(); k += 64) ev.emplace_back(k, std::min<size_t>(64, image.size() - k)); // 64-byte write events
+      L = damageList(image, 0, ev, sop->I(0), sop->I(1), (uint64_t)sop->I(2) + 77);
+    }
+    c.line("S total " + std::to_string(L.size()));
+    std::vector<std::pair<size_t, size_t>> ev;
+    for (size_t k = 0; k < image.size(); k += 64) ev.emplace_back(k, std::min<size_t>(64, image.size() - k));
+    for (size_t k = (size_t)startIndex; k < L.size(); k++)
+    {
+      const Damage& d = L[k];
+      if (d.kind == 12) continue;
+      std::string img = applyDamage(image, ev, d, "");
+      c.line("B " + std::to_string(k) + " load." + fm->name + " dmg=" + DMG[d.kind] + "," + std::to_string(d.a) + "," + std::to_string(d.b) + " mode=1");
+      c.count(std::string("fault.") + DMG[d.kind]);
+      std::string path = scratchDir() + "/fmtimg.dat";
+      writeFileRaw(path, img);
+      LoadOutcome lo;
+      memBudgetStart(64u << 20, 256u << 20);
+      try
+      {
+        Db* o = fmtLoad(*fm, *oop, path);
+        if (o) { lo.cls = "object"; lo.obj.reset(o); } else lo.cls = "failed";
+      }
+      catch (const std::bad_alloc&) { lo.cls = memBudgetExceeded() ? "budget-mem" : "exception"; lo.what = "std::bad_alloc"; }
+      catch (const std::length_error&) { lo.cls = memBudgetExceeded() ? "budget-mem" : "exception"; lo.what = "std::length_error"; }
+      catch (const std::exception& e) { lo.cls = "exception"; lo.what = std::string("std::exception:") + firstWord(e.what()); }
+      catch (...) { lo.cls = "exception"; lo.what = "unknown"; }
+      if (memBudgetExceeded() && lo.cls != "exception") lo.cls = "budget-mem";
+      memBudgetStop();
+      std::string ctx = std::string("damage ") + DMG[d.kind] + "(" + std::to_string(d.a) + "," + std::to_string(d.b) + ") format " + fm->name + " image " + std::to_string(img.size()) + "B";
+      // what a format reader returns is judged as the Db/DbGrid it claims to be; signatures carry the format name
+      ClassAdapter named = *judge;
+      named.name = fm->name;
+      judgeSurvivor(named, lo, c, DMG[d.kind], ctx);
+      c.line("A " + std::to_string(k) + " " + lo.cls);
+    }
+    c.nontrivial();
+    return;
+  }
   c.begin(0, "obj");
   Made m = makeObject(*oop, bufsz);
   if (!m.ok) { c.line("Z cannot-write-object " + (m.ad ? m.ad->name : "?")); return; }
@@ -601,7 +735,8 @@ void execSweep(const Plan& p, Ctx& c, long startIndex)
       c.line("B " + std::to_string(k) + " load." + m.ad->name + " dmg=" + DMG[d.kind] + "," + std::to_string(d.a) + "," + std::to_string(d.b) + " mode=" + std::to_string(mode));
       c.count(std::string("fault.") + DMG[d.kind]);
       long badAt = -1;
-      if (mode == 0 && d.kind == 11 && (d.a % 3) == 0) { badAt = d.a % (long)(body.size() + 1); c.count("fault.reader-badbit"); }
+      if (mode == 0 && d.kind == 11 && (d.a % 3) == 0) { badAt = d.a % (long)(body.size() + 1); c.count("fault.reader-eio"); }
+      if (getenv("SIMKIT_DUMP_IMAGE")) writeFileRaw(getenv("SIMKIT_DUMP_IMAGE"), img);
       LoadOutcome lo = loadImage(*m.ad, body, mode, chunk, badAt, img);
       std::string ctx = std::string("damage ") + DMG[d.kind] + "(" + std::to_string(d.a) + "," + std::to_string(d.b) + ") mode " + (mode ? "path" : "stream") +
                         " class " + m.ad->name + " image " + std::to_string(img.size()) + "B";
@@ -657,7 +792,11 @@ struct StoreC09 : Workload
     const auto& A = adapters();
     Op o;
     o.kind = "obj";
-    o.s = {A[(size_t)(run % (long)A.size())].name}; // round robin over classes, parameters random
+    {
+      size_t ntot = A.size() + formats().size();
+      size_t which = (size_t)(run % (long)ntot);
+      o.s = {which < A.size() ? A[which].name : formats()[which - A.size()].name}; // round robin over classes and formats
+    }
     o.i = {r.range(1, 1000000)};
     Op s;
     s.kind = "sweep";
@@ -753,6 +892,57 @@ void execRoundTrip(const Plan& p, Ctx& c)
   const std::string P = "C08|";
   size_t bufsz = (size_t)p.knob("bufsz", 64);
   size_t chunk = (size_t)p.knob("chunk", 4096);
+  if (const Fmt* fm = findFmt(oop->S(0)))
+  {
+    // grid exchange formats that can be both written and read: same geometry and values (to the 6 digits they print)
+    c.begin(0, "obj");
+    std::unique_ptr<Db> orig;
+    std::string image;
+    if (!fmtMake(*fm, *oop, orig, image)) { c.violation(P + "write-failed|" + fm->name, "the library writer refused a generated grid"); return; }
+    c.end(0, Digest().hex());
+    c.begin(1, "roundtrip." + fm->name);
+    c.fp(fm->name);
+    std::string path = scratchDir() + "/fmtimg.dat";
+    writeFileRaw(path, image);
+    std::unique_ptr<Db> back(fmtLoad(*fm, *oop, path));
+    if (!back) { c.violation(P + "load-failed|" + fm->name + "|failed", "the file just written is refused by the reader"); return; }
+    DbGrid* g0 = dynamic_cast<DbGrid*>(orig.get());
+    DbGrid* g1 = dynamic_cast<DbGrid*>(back.get());
+    if (!g0 || !g1) { c.violation(P + "describe-differs|" + fm->name + "|not-a-grid", "reader did not return a grid"); return; }
+    // a format with a fixed number of axes (IfpEn: 3) returns the extra axes with a single node
+    if (g1->getNDim() < g0->getNDim()) { c.violation(P + "describe-differs|" + fm->name + "|ndim", "space dimension reduced"); return; }
+    for (int d = g0->getNDim(); d < g1->getNDim(); d++)
+      if (g1->getNX(d) != 1) { c.violation(P + "describe-differs|" + fm->name + "|extra-axis", "extra axis with several nodes"); return; }
+    for (int d = 0; d < g0->getNDim(); d++)
+    {
+      char b[200];
+      if (g0->getNX(d) != g1->getNX(d)) { snprintf(b, sizeof b, "nx[%d] %d vs %d", d, g0->getNX(d), g1->getNX(d)); c.violation(P + "describe-differs|" + fm->name + "|nx", b); return; }
+      if (fm->name == "fmt.Bmp") continue; // an image stores pixels only: mesh and origin are not part of the format
+      if (std::fabs(g0->getDX(d) - g1->getDX(d)) > 1e-5 * (1 + std::fabs(g0->getDX(d)))) { snprintf(b, sizeof b, "dx[%d] %.10g vs %.10g", d, g0->getDX(d), g1->getDX(d)); c.violation(P + "describe-differs|" + fm->name + "|dx", b); return; }
+      if (std::fabs(g0->getX0(d) - g1->getX0(d)) > 1e-5 * (1 + std::fabs(g0->getX0(d)))) { snprintf(b, sizeof b, "x0[%d] %.10g vs %.10g", d, g0->getX0(d), g1->getX0(d)); c.violation(P + "describe-differs|" + fm->name + "|x0", b); return; }
+    }
+    if (fm->name != "fmt.Bmp")
+    {
+      VectorDouble v0 = g0->getColumnByColIdx(g0->getColumnNumber() - 1, false, false);
+      VectorDouble v1 = g1->getColumnByColIdx(g1->getColumnNumber() - 1, false, false);
+      if (v0.size() != v1.size()) { c.violation(P + "describe-differs|" + fm->name + "|values.size", "node count changed"); return; }
+      for (size_t i = 0; i < v0.size(); i++)
+      {
+        bool u0 = isUndef(v0[i]), u1 = isUndef(v1[i]);
+        if (u0 != u1 || (!u0 && std::fabs(v0[i] - v1[i]) > 1e-5 * (1 + std::fabs(v0[i]))))
+        {
+          char b[200];
+          snprintf(b, sizeof b, "node %zu: %.10g vs %.10g", i, v0[i], v1[i]);
+          c.violation(P + "describe-differs|" + fm->name + "|values", b);
+          return;
+        }
+      }
+    }
+    c.count("probe.format-roundtrip-equivalent");
+    c.end(1, Digest().hex());
+    c.nontrivial();
+    return;
+  }
   c.begin(0, "obj");
   Made m = makeObject(*oop, bufsz);
   const std::string& cn = m.ad->name;
@@ -958,7 +1148,13 @@ struct StoreC08 : Workload
     const auto& A = adapters();
     Op o;
     o.kind = "obj";
-    o.s = {A[(size_t)(run % (long)A.size())].name};
+    {
+      // grid exchange formats with both a writer and a reader join the round robin
+      static const char* gridFmts[] = {"fmt.Zycor", "fmt.IfpEn", "fmt.Bmp"};
+      size_t ntot = A.size() + 3;
+      size_t which = (size_t)(run % (long)ntot);
+      o.s = {which < A.size() ? A[which].name : std::string(gridFmts[which - A.size()])};
+    }
     o.i = {r.range(1, 1000000)};
     Op t;
     t.kind = "roundtrip";
